@@ -9,20 +9,46 @@
 //!   op 1 Poll a | 2 Drop a | 4 Complete a b (0 ok, 1 err, 2 panic) | 5 Call a with key b
 //!   op 6 Arm a: the next Clone of a value (Ok or Err) produced by caller a's inner call panics (once)
 //!   op 7 CallPanic a b: like 5, but the inner service's call() panics if this request reaches it
+//!   op 8 CallPanicRec a b: like 5, but the metrics recorder panics when this call() registers its role counter
+//!        (the crate is built with feature `metrics`; the global recorder is the one installed by `main` below)
+//!   op 3 Advance a b: b milliseconds pass (paused tokio clock and std Instant together); a is ignored
 //! Caller a's request is the integer a; the key extractor looks the key up in a table filled
 //! by the Call event.  The inner service answers request a with the value a (Ok(a) / Err(a)),
 //! so every outer result names the inner call it came from.
 //! trace per event = [r, val, wake mask, mask of callers whose inner call is in flight, mask of armed Clone panics]
 //!   r: -1 nothing to report, 0 pending, 1 Ok, 2 Err(Service), 3 LeaderCancelled, 4 RecvError,
-//!      5 panicked (the poll, or for op 7 the call itself), 9 nothing to poll
+//!      5 panicked (the poll, or for op 7 / 8 the call itself after the scripted fault went off), 7 call() panicked
+//!      although no scripted fault went off, 9 nothing to poll
 use std::future::Future;
 use std::hash::{Hash, Hasher};
 use std::pin::Pin;
+use std::sync::atomic::{AtomicBool, Ordering};
 use std::sync::{Arc, Mutex};
 use std::task::{Context, Poll};
 use tower::{Layer, Service};
 use tower_resilience_coalesce::{CoalesceError, CoalesceLayer};
 use verif_harness::*;
+
+/// the process-wide metrics recorder: does nothing, except that registering a counter panics while armed
+static REC_ARMED: AtomicBool = AtomicBool::new(false);
+struct Rec;
+impl metrics::Recorder for Rec {
+    fn describe_counter(&self, _: metrics::KeyName, _: Option<metrics::Unit>, _: metrics::SharedString) {}
+    fn describe_gauge(&self, _: metrics::KeyName, _: Option<metrics::Unit>, _: metrics::SharedString) {}
+    fn describe_histogram(&self, _: metrics::KeyName, _: Option<metrics::Unit>, _: metrics::SharedString) {}
+    fn register_counter(&self, _: &metrics::Key, _: &metrics::Metadata<'_>) -> metrics::Counter {
+        if REC_ARMED.swap(false, Ordering::SeqCst) {
+            panic!("scripted panic in the metrics recorder");
+        }
+        metrics::Counter::noop()
+    }
+    fn register_gauge(&self, _: &metrics::Key, _: &metrics::Metadata<'_>) -> metrics::Gauge {
+        metrics::Gauge::noop()
+    }
+    fn register_histogram(&self, _: &metrics::Key, _: &metrics::Metadata<'_>) -> metrics::Histogram {
+        metrics::Histogram::noop()
+    }
+}
 
 /// switches the script flips: which requests make `inner.call()` panic, whose values have a panicking Clone
 struct Ctl {
@@ -145,7 +171,7 @@ fn run_k<K: Key>(s: &[i128]) -> Vec<i128> {
             let mut r: i128 = -1;
             let mut val: i128 = -1;
             match op {
-                5 | 7 => {
+                5 | 7 | 8 => {
                     if !called[i] {
                         called[i] = true;
                         keys.lock().unwrap()[i] = b.max(0);
@@ -159,6 +185,7 @@ fn run_k<K: Key>(s: &[i128]) -> Vec<i128> {
                         };
                         ncalls += 1;
                         futures::future::poll_fn(|cx| svc.poll_ready(cx)).await.ok();
+                        REC_ARMED.store(op == 8, Ordering::SeqCst);
                         // a panic in call() is contained the way a task boundary contains it
                         match std::panic::catch_unwind(std::panic::AssertUnwindSafe(|| svc.call(a))) {
                             Ok(fut) => {
@@ -167,10 +194,19 @@ fn run_k<K: Key>(s: &[i128]) -> Vec<i128> {
                                 m.keep_done = true;
                                 callers[i] = Some(m);
                             }
-                            Err(_) => r = 5,
+                            Err(_) => {
+                                // 5 = the scripted fault went off (its switch is consumed); 7 = call() panicked on its own
+                                let fired = match op {
+                                    7 => !ctl.call_panic.lock().unwrap()[i],
+                                    8 => !REC_ARMED.load(Ordering::SeqCst),
+                                    _ => false,
+                                };
+                                r = if fired { 5 } else { 7 };
+                            }
                         }
-                        // a waiter never reaches inner.call(): the switch does not outlive this call
+                        // a waiter never reaches inner.call(): the switches do not outlive this call
                         ctl.call_panic.lock().unwrap()[i] = false;
+                        REC_ARMED.store(false, Ordering::SeqCst);
                     }
                 }
                 1 => {
@@ -201,6 +237,12 @@ fn run_k<K: Key>(s: &[i128]) -> Vec<i128> {
                 6 => {
                     ctl.bomb.lock().unwrap()[i] = true;
                 }
+                3 => {
+                    // one jump (a day would be 86 400 000 single steps); timers that became due fire while settling
+                    let ms = b.clamp(0, 10_000_000_000) as u64;
+                    VIRT_NS.fetch_add(ms.saturating_mul(1_000_000), Ordering::SeqCst);
+                    tokio::time::advance(std::time::Duration::from_millis(ms)).await;
+                }
                 _ => continue,
             }
             settle().await;
@@ -226,4 +268,7 @@ fn run_k<K: Key>(s: &[i128]) -> Vec<i128> {
     })
 }
 
-fn main() { main_loop(run); }
+fn main() {
+    metrics::set_global_recorder(Rec).ok();
+    main_loop(run);
+}
